@@ -351,6 +351,10 @@ func (st *nrStore) List(_ context.Context, list client.ObjectList, opts ...clien
 	case *corev1.NodeList:
 		if f := st.fault("list-nodes", "err-before"); f != "" {
 			st.s.r.Probe("node-list-failed-in-config-fanout")
+			// the fan-out of a config change is lost: no node is enqueued until its next own event
+			for _, n := range st.s.nodes {
+				st.s.missed[n.name] = true
+			}
 			return st.errBefore(false)
 		}
 		l.Items = l.Items[:0]
@@ -612,6 +616,16 @@ func (q *nrQueue) release(now time.Time) {
 		k++
 	}
 	q.delayed = q.delayed[k:]
+}
+
+// waiting: a delayed add (retry after an error) of the request has not come due yet.
+func (q *nrQueue) waiting(req reconcile.Request) bool {
+	for _, d := range q.delayed {
+		if d.req == req {
+			return true
+		}
+	}
+	return false
 }
 
 func (q *nrQueue) nextDue() (time.Time, bool) {
